@@ -1183,14 +1183,16 @@ func (gs *GossipSubRouter) handleGraft(p peer.ID, ctl *pb.ControlMessage) []*pb.
 const maxPruneBackoffSeconds = uint64(math.MaxInt64 / int64(time.Second))
 
 func (gs *GossipSubRouter) handlePrune(p peer.ID, ctl *pb.ControlMessage) {
-	score := gs.score.Score(p)
-
 	for _, prune := range ctl.GetPrune() {
 		topic := prune.GetTopicID()
 		peers, ok := gs.mesh[topic]
 		if !ok {
 			continue
 		}
+
+		// the score the peer has when this PRUNE is handled: leaving the mesh for an earlier
+		// PRUNE of the same message has changed it
+		score := gs.score.Score(p)
 
 		// only a mesh member is removed (and reported as pruned); the backoff is obeyed regardless
 		if _, inMesh := peers[p]; inMesh {
